@@ -18,6 +18,8 @@
 (*   "dense"   DenseBlockDiagonalOperator 'ij,j->i', p = <<r, c, e11, ..>> *)
 (*   "toep"    SymmetricBandToeplitzOperator, p = band values              *)
 (*   "diag"    DiagonalOperator, p = values (1-D, applied to every leaf)   *)
+(*   "diagq"   DiagonalOperator with rational values p[i+1]/p[1] (tiny or  *)
+(*             huge entries); "dinv" wraps it like "diag"                  *)
 (*   "dinv"    DiagonalInverseOperator(ch[1])                              *)
 (*   "bdiagb"  BroadcastDiagonalOperator, p = <<r, n, v11, ..>>, axis -1   *)
 (*   "index"   IndexOperator on 1-D leaves, p = <<unique, i1, .., im>>     *)
@@ -104,14 +106,28 @@ WithShape(l, sh) == Leaf(sh, l.dt)
 
 NormAxis(a, nd) == IF a < 0 THEN a + nd ELSE a
 
-\* numpy.moveaxis on a shape (single source / destination), 0-based axes
-MovePerm(nd, src, dst) ==
+\* numpy.moveaxis on a shape, 0-based axes; p = <<s1, .., sk, d1, .., dk>> (k sources, k destinations):
+\* order = the axes that are not sources, then for (dest, src) sorted by dest: insert src at position dest
+MoveK(p) == Len(p) \div 2
+MoveSrc(p, nd) == [i \in 1..MoveK(p) |-> NormAxis(p[i], nd)]
+MoveDst(p, nd) == [i \in 1..MoveK(p) |-> NormAxis(p[MoveK(p) + i], nd)]
+InsertAt(s, pos, x) == SubSeq(s, 1, pos) \o <<x>> \o SubSeq(s, pos + 1, Len(s))     \* pos 0-based
+RECURSIVE MoveInsert(_, _, _, _)
+\* insert the pairs whose destination is d, d+1, ... in increasing destination order
+MoveInsert(order, src, dst, d) ==
+  IF d > Len(order) + Len(src) THEN order
+  ELSE IF \E i \in 1..Len(dst) : dst[i] = d
+       THEN MoveInsert(InsertAt(order, d, src[CHOOSE i \in 1..Len(dst) : dst[i] = d]), src, dst, d + 1)
+       ELSE MoveInsert(order, src, dst, d + 1)
+MovePermP(nd, p) ==
   \* perm[k] (1-based position k of the output) = input axis (0-based)
-  LET s == NormAxis(src, nd)
-      d == NormAxis(dst, nd)
-      rest == SelectSeq([i \in 1..nd |-> i - 1], LAMBDA x : x # s)
-  IN TLCEval([k \in 1..nd |-> IF k - 1 = d THEN s ELSE IF k - 1 < d THEN rest[k] ELSE rest[k - 1]])
-MovedShape(sh, src, dst) == TLCEval([k \in 1..Len(sh) |-> sh[MovePerm(Len(sh), src, dst)[k] + 1]])
+  LET src == MoveSrc(p, nd)
+      dst == MoveDst(p, nd)
+      rest == SelectSeq([i \in 1..nd |-> i - 1], LAMBDA x : \A i \in 1..Len(src) : src[i] # x)
+  IN TLCEval(MoveInsert(rest, src, dst, 0))
+MovePerm(nd, src, dst) == MovePermP(nd, <<src, dst>>)
+MovedShapeP(sh, p) == TLCEval([k \in 1..Len(sh) |-> sh[MovePermP(Len(sh), p)[k] + 1]])
+MovedShape(sh, src, dst) == MovedShapeP(sh, <<src, dst>>)
 
 ReshapeTarget(sh, target) ==
   LET known == ProdSeq(SelectSeq(target, LAMBDA x : x # -1))
@@ -135,7 +151,7 @@ RECURSIVE MapLeafShapes(_, _, _)
 ShapeMap(mode, sh, p) ==
   CASE mode = "index" -> <<Len(p) - 1>>
     [] mode = "pack" -> <<PopCount(p)>>
-    [] mode = "mvax" -> MovedShape(sh, p[1], p[2])
+    [] mode = "mvax" -> MovedShapeP(sh, p)
     [] mode = "reshape" -> ReshapeTarget(sh, p)
     [] mode = "ravel" -> RavelShape(sh, p[1], p[2])
 MapLeafShapes(s, mode, p) ==
@@ -145,7 +161,7 @@ MapLeafShapes(s, mode, p) ==
 RECURSIVE InS(_)
 RECURSIVE OutS(_)
 InS(t) ==
-  CASE t.k \in {"id", "hom", "dense", "toep", "diag", "bdiagb", "index", "pack", "mvax",
+  CASE t.k \in {"id", "hom", "dense", "toep", "diag", "diagq", "bdiagb", "index", "pack", "mvax",
                 "reshape", "ravel", "rot", "hwp", "pol"} -> t.s
     [] t.k = "dinv" -> InS(t.ch[1])
     [] t.k \in {"T", "RT", "inv", "rotT"} -> OutS(t.ch[1])
@@ -154,7 +170,7 @@ InS(t) ==
     [] t.k \in {"brow", "bdiag"} -> Subst(t.s, [i \in 1..Len(t.ch) |-> InS(t.ch[i])])
     [] t.k = "bcol" -> InS(t.ch[1])
 OutS(t) ==
-  CASE t.k \in {"id", "hom", "toep", "diag", "rot", "hwp"} -> t.s
+  CASE t.k \in {"id", "hom", "toep", "diag", "diagq", "rot", "hwp"} -> t.s
     [] t.k = "dense" -> Leaf(<<t.p[1]>>, LeafDt(t.s))
     [] t.k = "bdiagb" -> Leaf(<<t.p[1], t.p[2]>>, LeafDt(t.s))
     [] t.k \in {"index", "pack", "mvax", "reshape", "ravel"} -> MapLeafShapes(t.s, t.k, t.p)
@@ -180,10 +196,10 @@ SelectMat(n, idx) ==
   Mat(Len(idx), n, 1, LAMBDA i, j : IF NormAxis(idx[i], n) = j - 1 THEN 1 ELSE 0)
 MaskIdx(bits) == SelectSeq([i \in 1..Len(bits) |-> i - 1], LAMBDA x : bits[x + 1] = 1)
 \* permutation matrix of moveaxis on a leaf of shape sh
-MoveAxisMat(sh, src, dst) ==
+MoveAxisMat(sh, p) ==
   LET nd == Len(sh)
-      perm == MovePerm(nd, src, dst)
-      osh == MovedShape(sh, src, dst)
+      perm == MovePermP(nd, p)
+      osh == MovedShapeP(sh, p)
       n == ProdSeq(sh)
   IN Mat(n, n, 1, LAMBDA i, j :
         LET omi == Unravel(osh, i - 1)
@@ -226,6 +242,12 @@ DiagPinv(v) ==
       L == ProdSeq([i \in 1..Len(nz) |-> Abs(nz[i])])
   IN DiagMatOver([i \in 1..Len(v) |-> IF v[i] = 0 THEN 0 ELSE (L \div Abs(v[i])) * (IF v[i] < 0 THEN -1 ELSE 1)], L)
 
+\* the same for rational values v[i]/den: entries den/v[i] over the common denominator lcm-like L
+DiagPinvQ(v, den) ==
+  LET nz == SelectSeq(v, LAMBDA x : x # 0)
+      L == ProdSeq([i \in 1..Len(nz) |-> Abs(nz[i])])
+  IN DiagMatOver([i \in 1..Len(v) |-> IF v[i] = 0 THEN 0 ELSE den * (L \div Abs(v[i])) * (IF v[i] < 0 THEN -1 ELSE 1)], L)
+
 RECURSIVE Den(_)
 Den(t) ==
   CASE t.k = "id" -> IdentityMat(SizeS(t.s))
@@ -233,11 +255,13 @@ Den(t) ==
     [] t.k = "dense" -> DenseMatOf(t.p)
     [] t.k = "toep" -> ToeplitzMat(t.s.sh[1], t.p)
     [] t.k = "diag" -> PerLeaf(t.s, LAMBDA l : DiagMat(t.p))
-    [] t.k = "dinv" -> PerLeaf(InS(t.ch[1]), LAMBDA l : DiagPinv(t.ch[1].p))
+    [] t.k = "diagq" -> PerLeaf(t.s, LAMBDA l : DiagMatOver(Tail(t.p), t.p[1]))
+    [] t.k = "dinv" -> PerLeaf(InS(t.ch[1]), LAMBDA l : IF t.ch[1].k = "diagq" THEN DiagPinvQ(Tail(t.ch[1].p), t.ch[1].p[1])
+                                                       ELSE DiagPinv(t.ch[1].p))
     [] t.k = "bdiagb" -> BroadcastDiagMat(t.p)
     [] t.k = "index" -> PerLeaf(t.s, LAMBDA l : SelectMat(l.sh[1], Tail(t.p)))
     [] t.k = "pack" -> PerLeaf(t.s, LAMBDA l : SelectMat(l.sh[1], MaskIdx(t.p)))
-    [] t.k = "mvax" -> PerLeaf(t.s, LAMBDA l : MoveAxisMat(l.sh, t.p[1], t.p[2]))
+    [] t.k = "mvax" -> PerLeaf(t.s, LAMBDA l : MoveAxisMat(l.sh, t.p))
     [] t.k \in {"reshape", "ravel"} -> IdentityMat(SizeS(t.s))
     [] t.k = "rot" -> RotMat(t.s.k, LeafSize(Leaves(t.s)[1]), t.p)
     [] t.k = "hwp" -> HwpMat(t.s.k, LeafSize(Leaves(t.s)[1]))
@@ -252,8 +276,8 @@ Den(t) ==
 
 -----------------------------------------------------------------------------
 (* tags, as the decorators register them *)
-SymmetricKinds == {"id", "hom", "diag", "dinv", "toep", "hwp"}     \* transpose() returns self
-DiagonalKinds == {"id", "hom", "diag", "dinv", "hwp"}
+SymmetricKinds == {"id", "hom", "diag", "diagq", "dinv", "toep", "hwp"}     \* transpose() returns self
+DiagonalKinds == {"id", "hom", "diag", "diagq", "dinv", "hwp"}
 OrthogonalKinds == {"id", "rot", "rotT"}                             \* inverse = transpose
 SquareKinds == SymmetricKinds \cup OrthogonalKinds                   \* out_structure = in_structure
 IsScalarT(t) == t.k = "hom"
@@ -270,7 +294,7 @@ Transpose(t) ==
          LET r == t.p[1] c == t.p[2] IN
          Term("dense", 0, OutS(t),
               TLCEval(<<c, r>> \o [x \in 1..(r * c) |-> t.p[2 + ((x - 1) % r) * c + ((x - 1) \div r) + 1]]), <<>>)
-    [] t.k = "mvax" -> Term("mvax", 0, OutS(t), <<t.p[2], t.p[1]>>, <<>>)
+    [] t.k = "mvax" -> Term("mvax", 0, OutS(t), SubSeq(t.p, MoveK(t.p) + 1, Len(t.p)) \o SubSeq(t.p, 1, MoveK(t.p)), <<>>)
     [] t.k \in {"reshape", "ravel"} -> RTOf(t)
     [] t.k = "rot" -> RotTOf(t)
     [] t.k \in TransposeKinds -> t.ch[1]
